@@ -476,7 +476,9 @@ fn run(input: RunInput) -> ScenFuture {
             let in_flight = attempts
                 .iter()
                 .filter(|(at, to)| {
-                    if !(*at < tick && tick < at + ct_ms * MS) {
+                    // (generous at both ends: an attempt whose connect timeout ends within the
+                    // tick's own millisecond may still hold its slot when the tick is processed)
+                    if !(*at < tick && tick <= at + ct_ms * MS + 2 * MS) {
                         return false;
                     }
                     match owner.get(to) {
@@ -486,7 +488,9 @@ fn run(input: RunInput) -> ScenFuture {
                             let blocked_at_start = blocked_hist.iter().filter(|(t, k2, _)| *k2 == kk && *t <= *at).last().map(|x| x.2).unwrap_or(false);
                             let unblocked_before_tick = blocked_hist.iter().any(|(t, k2, b)| *k2 == kk && *t > *at && *t <= tick && !*b);
                             // (a dial to a live address is still handshaking until its NewPeer is published)
-                            let still_handshaking = live && !events.iter().any(|(t, e)| *t >= *at && *t <= tick && matches!(e, PeerEvent::NewPeer(q) if *q == ids[kk]));
+                            // (... published clearly before the tick: within the same millisecond the
+                            // order of "connection registered" and "tick" is not observable from outside)
+                            let still_handshaking = live && !events.iter().any(|(t, e)| *t >= *at && *t + 2 * MS <= tick && matches!(e, PeerEvent::NewPeer(q) if *q == ids[kk]));
                             !live || (blocked_at_start && !unblocked_before_tick) || still_handshaking
                         }
                     }
